@@ -501,6 +501,7 @@ class Engine:
         if s.startswith('no_retag '): return self.compile_operand(fn, s[9:])
         if self.resolve(s) is not None: return (3, s)
         if re.match(r'^(<.*>|[\w:]+)::\w+(::<.*>)?$', s): return (3, s)      # fn item without MIR (library function passed as a value)
+        if re.match(r'^[a-z_]\w*(::<.*>)?$', s) and not re.match(r'^_\d+$', s): return (3, s)   # imported free function of another crate (`natural_lexical_cmp`)
         raise Unsupported('operand ' + s)
 
     def ev(self, fr, fn, o):
@@ -1001,6 +1002,7 @@ class Engine:
             dst, callexpr, bbn = m.group(1), m.group(2), int(m.group(3))
         else:
             m2 = re.match(r'^(?:(.*?) = )?(.*) -> unwind[^;]*;$', t, re.S)   # diverging call
+            if not m2: m2 = re.match(r'^(?:(.*?) = )?(.*\)) -> bb\d+;$', t, re.S)    # diverging call inside a cleanup-aware region: `-> bbN` is the unwind target
             if not m2: raise Unsupported('terminator ' + t)
             dst, callexpr = None, m2.group(2)
         i = self.call_open(callexpr)
